@@ -1612,6 +1612,7 @@ class PathCtx:
             return self.ex.const_fun(name, x.const_value)
         r = self.uf(name, [x], 1)[0]
         self.ex.fun_axioms(self, name, x, r)
+        self.model_ok = False       # the axioms constrain the new symbol: the running model need not extend to it
         return r
 
     def uf_pow(self, x, kf):
@@ -1620,6 +1621,7 @@ class PathCtx:
             return self.ex.const_pow(x.const_value, kf)
         r = self.uf("pow_%d_%d" % (kf.numerator, kf.denominator), [x], 1)[0]
         self.ex.pow_axioms(self, x, kf, r)
+        self.model_ok = False
         return r
 
     # ---- assertions
